@@ -396,7 +396,12 @@ def lexical_input(rng):
     if r < 0.15:
         s = "<!--%s-->" % rng.choice([">x", "->x", "-", "a-", "x--!>y", "<!--", "a-b", " ", "--", "é"]) + s
     elif r < 0.25:
-        s = rng.choice(["<!DOCTYPE html>", "<!DOCTYPE html PUBLIC 'a\"b' 'c'>", "<!DOCTYPE x SYSTEM \"a'b\">", "<!DOCTYPE html PUBLIC \"a\" 'b\"c'>", "<!DOCTYPE html PUBLIC '' ''>",
+        q = rng.choice(['"', "'"])
+        o = "'" if q == '"' else '"'
+        ident = rng.choice(["%sx%s y", "x%s", "%s", "a%sb%sc", "%s%s", "x y%s"]).replace("%s", q)
+        extra = ["<!DOCTYPE html SYSTEM %s%s%s>" % (o, ident, o), "<!DOCTYPE html PUBLIC %s%s%s %sz%s>" % (o, ident, o, o, o),
+                 "<!DOCTYPE html PUBLIC %sp%s %s%s%s>" % (o, o, o, ident, o)]
+        s = rng.choice(extra + ["<!DOCTYPE html>", "<!DOCTYPE html PUBLIC 'a\"b' 'c'>", "<!DOCTYPE x SYSTEM \"a'b\">", "<!DOCTYPE html PUBLIC \"a\" 'b\"c'>", "<!DOCTYPE html PUBLIC '' ''>",
                         "<!DOCTYPE>", "<!DOCTYPE a PUBLIC \"x>y\">", "<!DOCTYPE html SYSTEM 'a\"b'>", "<!DOCTYPE html SYSTEM 'a\"b' >"]) + s
     return s
 
